@@ -144,6 +144,26 @@ pub fn chunk_pattern(r: &mut Rng, off: u64, lo: u64, hi: u64, prefer_zero: bool,
                 }
             }
         }
+        14 if avail >= 128 => {
+            // a few fully set, 64-bit aligned words (array-sized population), in particular the first and the LAST word
+            // of the part (the top word of a chunk when the part ends at a chunk edge)
+            let first = (lo + 63) / 64 * 64;
+            let last = hi / 64 * 64 - 64;
+            let mut words = vec![last];
+            if r.chance(1, 2) {
+                words.push(first);
+            }
+            for _ in 0..r.below(4) {
+                words.push(first + 64 * r.below((last - first) / 64 + 1));
+            }
+            words.sort();
+            words.dedup();
+            for w in words {
+                if w >= lo && w + 64 <= hi {
+                    bits.extend(w..w + 64);
+                }
+            }
+        }
         _ => {
             // a few random single bits and short runs
             for _ in 0..r.range(1, 12) {
